@@ -48,8 +48,31 @@ def flatten(v, depth=0, seen=None):
     return repr(v)
 
 
+_MODULE_STATE = {}
+
+
+def module_state(mod):
+    """snapshot (flattened values) of every object that the module body created and that a function could mutate:
+    instances of the module's classes, lists, dicts and sets held by module globals or by class attributes"""
+    if id(mod) not in _MODULE_STATE:
+        holders = []
+        classes = [v for v in vars(mod).values() if isinstance(v, type) and v.__module__ == mod.__name__]
+        for ns_name, ns in [("", vars(mod))] + [(c.__name__ + ".", vars(c)) for c in classes]:
+            for k, v in list(ns.items()):
+                if k.startswith("__") and k.endswith("__"):
+                    continue
+                if isinstance(v, (list, dict, set)) or type(v).__module__ == mod.__name__ and not isinstance(v, type) \
+                        and not callable(v):
+                    holders.append((ns_name + k, v))
+        _MODULE_STATE[id(mod)] = holders
+    return json.dumps([[n, flatten(v)] for n, v in _MODULE_STATE[id(mod)]], sort_keys=True, default=str)
+
+
 def run_one(mod, ob, values, choices, rng):
     from pyvc.api import ConcE, Reject, Tol
+    from pyvc.runner import FRAME_CLAUSE
+
+    state_before = module_state(mod)
 
     Tol.atol, Tol.rtol = 1e-9, 1e-9
     E = ConcE(mod, values=values, rng=rng)
@@ -85,8 +108,9 @@ def run_one(mod, ob, values, choices, rng):
         status = "escaped"
         detail = "%s: %s" % (type(e).__name__, str(e)[:200])
         E.tb = traceback.format_exc()[-1500:]
+    frame_ok = module_state(mod) == state_before
     return {"status": status, "detail": detail, "values": E.used, "choices": E.choices,
-            "results": [[c, bool(r)] for c, r in E.results], "auto": E.auto,
+            "results": [[c, bool(r)] for c, r in E.results] + [[FRAME_CLAUSE, frame_ok]], "auto": E.auto,
             "obs": [[n, v] for n, v in E.observations], "tb": getattr(E, "tb", "")}
 
 
